@@ -474,6 +474,9 @@ def families():
     small = [{"parents": [-1], "ncomps": [2]}, {"parents": [-1, 0], "ncomps": [1, 2]}, {"parents": [-1, 0], "ncomps": [2, 2]}, {"parents": [-1, 0, 0], "ncomps": [1, 1, 1]}]
     nets = [{"kind": "network", "cells": [a, b]} for a in small for b in small] if not quick else \
            [{"kind": "network", "cells": [small[0], small[1]]}, {"kind": "network", "cells": [small[2], small[2]]}, {"kind": "network", "cells": [small[3], small[1]]}]
+    # point-neuron networks (no compartment edges at all) and a trailing point neuron
+    pt = {"parents": [-1], "ncomps": [1]}
+    nets += [{"kind": "network", "cells": [pt, pt, pt]}, {"kind": "network", "cells": [small[0], pt]}, {"kind": "network", "cells": [pt, small[0]]}]
     specs += nets
     insts = []
     for s in specs:
